@@ -348,7 +348,10 @@ def c02(case: dict, cv: CallView, out: list, tol_s: float = 0.0) -> dict:
                     info["near"] = True
         if late:
             dead_failure = a.n
-    if total_sleep > D + tol_s * max(1, len(cv.atts)):
+    # "so the total sleep it requests never exceeds deadline_s" follows from the per-sleep bound only when
+    # every sleeper really sleeps at least what was requested (an early-returning sleeper makes no time pass).
+    early = any(isinstance(o, dict) and o.get("skip") for o in (cv.call.get("overshoot") or []))
+    if not early and total_sleep > D + tol_s * max(1, len(cv.atts)):
         out.append(("C02:total-sleep", f"total requested sleep {total_sleep}s exceeds deadline_s={D}"))
     return info
 
